@@ -611,3 +611,143 @@ RECIPES["C13"] = dict(mc=[mc_history, mc_drive_history], record=record_c13, prop
                       rule="call histories generated from Drive_History's state graph (every edge covered; every ordered pair of first-used languages; long random walks), each in a fresh "
                            "process; every return is validated natively and against the first result recorded for the same arguments in the same process; caller buffers and "
                            "earlier results are re-inspected; distinct by (operation, arguments)")
+
+
+# --------------------------------------------------------------------------
+# C12: goroutine programs in fresh processes of a -race build
+def mc_once(tier, seed):
+    base = 'SPECIFICATION Spec\nCONSTANTS G = {g1, g2, g3} L = {en, fr} Calls = 2 OnceImpl = "%s"\nINVARIANTS NoRace LookupSeesFullMap ResultsEqualSequential BuiltAtMostOnce\nCHECK_DEADLOCK FALSE\n'
+    res = [vlib.run_mc("MC_Once", base % "once", timeout=900)]
+    r = vlib.run_mc("MC_Once", base % "nilcheck", timeout=300, workers=4, expect_violation="is violated")
+    r["module"] = "MC_Once[nilcheck control]"
+    res.append(r)
+    if tier == "thorough":
+        big = 'SPECIFICATION Spec\nCONSTANTS G = {g1, g2, g3, g4} L = {en, fr} Calls = 1 OnceImpl = "once"\nINVARIANTS NoRace LookupSeesFullMap BuiltAtMostOnce\nCHECK_DEADLOCK FALSE\n'
+        r = vlib.run_mc("MC_Once", big, timeout=1500)
+        r["module"] = "MC_Once[4 goroutines]"
+        res.append(r)
+    return res
+
+
+_conc_programs = {}
+
+
+def mc_drive_conc(tier, seed):
+    res = []
+    for name, consts in (("firstuse", "G = 3 MaxCalls = 2 Ops = {1} SlotsN = 3"), ("allops", "G = 2 MaxCalls = 2 Ops = {1, 2, 3, 4, 5, 6} SlotsN = 2")):
+        d = vlib.spec_dir()
+        cfg = vlib.write_cfg(d, "Drive_run.cfg", "SPECIFICATION Spec\nCONSTANTS %s\nINVARIANT TypeOK\nCHECK_DEADLOCK FALSE\n" % consts)
+        rc, out, wall = vlib.tlc(d, "Drive_Conc.tla", cfg, workers=1, timeout=300, args=["-dump", "states.dump"])
+        m = vlib.STAT_RE.findall(out)
+        if "No error has been found" not in out or not m:
+            raise Infra("Drive_Conc failed:\n" + out[-2000:])
+        progs = []
+        for ln in open(os.path.join(d, "states.dump")):
+            if ln.startswith("prog = "):
+                progs.append(json.loads(ln[7:].strip().replace("<<", "[").replace(">>", "]")))
+        _conc_programs[name] = [p for p in progs if sum(len(g) for g in p) >= 2 and sum(1 for g in p if g) >= 2]
+        res.append(dict(module="Drive_Conc[%s]" % name, states=int(m[-1][0]), distinct=int(m[-1][1]), wall_s=round(wall, 1)))
+    return res
+
+
+OPS = {1: "chk", 2: "chk", 3: "ent", 4: "seed", 5: "str", 6: "new"}
+
+
+def conc_step(code, slotmap, rng):
+    op, slot = OPS[code // 10], "ABC"[code % 10 - 1]
+    lang = slotmap[slot]
+    if op == "chk":
+        cls = rng.choice(["valid", "valid", "valid", "badsum", "nfc", "unknown"]) if code // 10 == 1 else rng.choice(["valid", "sep3000", "short"])
+        return {"op": "chk", "cls": cls, "lang": lang, "var": rng.randrange(2)}
+    if op == "ent":
+        return {"op": "ent", "cls": rng.choice(["e16", "e32", "e16z", "bad17"]), "lang": lang, "var": rng.randrange(2)}
+    if op == "seed":
+        return {"op": "seed", "cls": rng.choice(["ascii", "jp", "compat"]), "var": rng.randrange(2)}
+    if op == "str":
+        return {"op": "str", "n": lang}
+    return {"op": "new", "n": rng.choice([12, 24, 13]), "lang": lang}
+
+
+def run_conc(binary, goroutines, replicas, seed, d):
+    prog, out, rl = os.path.join(d, "prog.json"), os.path.join(d, "trace.ndjson"), os.path.join(d, "race")
+    for f in os.listdir(d):
+        if f.startswith("race"):
+            os.unlink(os.path.join(d, f))
+    json.dump({"goroutines": goroutines, "replicas": replicas}, open(prog, "w"))
+    env = dict(os.environ, VERIF_DATA=os.path.join(vlib.SPEC, "data"), GORACE="log_path=%s atexit_sleep_ms=0 halt_on_error=0" % rl)
+    r = subprocess.run(["timeout", "300", binary, "conc", "-arg", prog, "-seed", str(seed), "-out", out], capture_output=True, text=True, env=env)
+    if r.returncode not in (0, 66):
+        raise Infra("conc harness failed rc=%d: %s" % (r.returncode, r.stderr[-1500:]))
+    text = ""
+    for f in sorted(os.listdir(d)):
+        if f.startswith("race"):
+            text += open(os.path.join(d, f), errors="replace").read()
+    n = text.count("WARNING: DATA RACE")
+    if r.returncode == 66 and n == 0:
+        raise Infra("race build exited 66 without a report")
+    lines = vlib.read_trace(out)
+    lines.append(json.dumps({"op": "RaceReport", "n": n, "text": [ord(c) for c in text[:1500]]}) + "\n")
+    return lines, n
+
+
+def record_c12(binary, tier, seed):
+    rng = random.Random(seed)
+    d = vlib.scratch("verif-conc-")
+    pairs = [(a, b) for a in range(10) for b in range(10) if a != b]
+    rng.shuffle(pairs)
+    plan = []
+    fu, ao = _conc_programs["firstuse"], _conc_programs["allops"]
+    nproc = 120 if tier == "quick" else 3000
+    for i in range(nproc):
+        a, b = pairs[i % len(pairs)]
+        c = rng.choice([x for x in range(10) if x not in (a, b)])
+        sm = {"A": a, "B": b, "C": c}
+        p = rng.choice(fu if i % 3 else ao)
+        reps = rng.choice([1, 1, 2, 4]) if tier == "quick" else rng.choice([1, 1, 2, 4, 8, 11])
+        plan.append(([[conc_step(code, sm, rng) for code in g] for g in p if g], reps))
+    # control: goroutines that only use the harness
+    lines, nraces = [], 0
+    from concurrent.futures import ThreadPoolExecutor
+    dirs = [vlib.scratch("verif-conc-") for _ in range(8)]
+
+    def one(i):
+        return run_conc(binary, plan[i][0], plan[i][1], seed, os.path.join(dirs[i % 8], "p%d" % i))
+    for i in range(len(plan)):
+        os.makedirs(os.path.join(dirs[i % 8], "p%d" % i), exist_ok=True)
+    with ThreadPoolExecutor(max_workers=8) as ex:
+        for (ls, n) in ex.map(one, range(len(plan))):
+            lines += ls
+            nraces += n
+    for dd in dirs:
+        vlib.shutil.rmtree(dd, ignore_errors=True)
+    return lines, len(plan), {"fresh_race_build_processes": len(plan), "race_reports": nraces,
+                              "programs_available": {"firstuse": len(fu), "allops": len(ao)}}
+
+
+def replay_c12(path, binary):
+    """re-run the recorded goroutines concurrently in fresh -race processes (schedules vary: up to 20 attempts)"""
+    d = vlib.scratch("verif-conc-")
+    out, rl = os.path.join(d, "trace.ndjson"), os.path.join(d, "race")
+    for attempt in range(20):
+        for f in os.listdir(d):
+            if f.startswith("race"):
+                os.unlink(os.path.join(d, f))
+        env = dict(os.environ, VERIF_DATA=os.path.join(vlib.SPEC, "data"), GORACE="log_path=%s atexit_sleep_ms=0 halt_on_error=0" % rl)
+        r = subprocess.run(["timeout", "300", binary, "replayconc", "-arg", path, "-out", out], capture_output=True, text=True, env=env)
+        if r.returncode not in (0, 66):
+            raise Infra("replayconc failed rc=%d: %s" % (r.returncode, r.stderr[-1500:]))
+        text = "".join(open(os.path.join(d, f), errors="replace").read() for f in sorted(os.listdir(d)) if f.startswith("race"))
+        lines = vlib.read_trace(out)
+        lines.append(json.dumps({"op": "RaceReport", "n": text.count("WARNING: DATA RACE"), "text": [ord(c) for c in text[:1500]]}) + "\n")
+        v = vlib.validate(lines, ["C12"], shards=1)
+        mine = [b for b in v.bad if b[1] == "C12"]
+        if mine:
+            return (False, "attempt %d: %d failing events (%s)" % (attempt + 1, len(mine), text[:200].replace("\n", " | ")))
+    return (True, "20 concurrent re-executions, no race report and all results equal to the sequential ones")
+
+
+RECIPES["C12"] = dict(mc=[mc_once, mc_drive_conc], record=record_c12, replay=replay_c12, props=["C12"], race=True, no_confirm=True,
+                      speaks=lambda e: e.get("conc") or e.get("op") == "RaceReport",
+                      rule="goroutine programs generated by Drive_Conc (all first-use shapes of 3 goroutines x 3 language slots, all operation mixes of 2 goroutines), language slots "
+                           "rotating through all ordered pairs, 1-11 replicas of each goroutine, each in a fresh process of a -race build; every return validated natively and "
+                           "against the same call run alone; distinct by (operation, arguments, goroutine)")
